@@ -25,7 +25,8 @@ GUESTS = [("c01", 0.1), ("c02", 0.03), ("c03", 0.1), ("c04", 0.15), ("c06", 0.15
           ("c11", 0.15), ("c12", 0.15), ("c13", 0.15), ("c14", 0.15), ("c16", 0.05), ("c17", 0.1), ("c18", 0.1)]
 STEPS = ['getlist', 'slice', 'put', 'add', 'mean', 'transpose', 'squeeze', 'newaxis', 'flatten', 'unflatten', 'reshape', 'reindex', 'align',
          'stack', 'concat', 'relabel', 'relabel_attr', 'labels_setter', 'rename', 'sort', 'querymono', 'querylabels', 'cumsum', 'setaxis',
-         'dataset', 'dataset_rename', 'fullslice', 'take_axis', 'setaxis_dict']
+         'dataset', 'dataset_rename', 'fullslice', 'take_axis', 'setaxis_dict', 'permute_labels', 'permute_labels', 'swapnames', 'rename_reuse',
+         'interp', 'getlist_name', 'getlist']
 
 
 def shards(tier, seed, scale=1.0):
@@ -236,6 +237,20 @@ def battery(da, x, y):
             run('rev+', lambda: x + x.ix[::-1])
             run('getname', lambda: x.take(ax.values[-1], axis=ax.name))
             run('attr', lambda: getattr(x, ax.name).tolist() if ',' not in ax.name else None)
+            # look-ups of several labels at once, by position and by name, on the first and on the last axis
+            run('getlist', lambda: x.take([ax.values[-1], ax.values[0]], axis=0))
+            run('take_axis-labels', lambda: x.take_axis([ax.values[-1], ax.values[0]], axis=ax.name))
+            run('reindex-rev', lambda: x.reindex_axis(ax.values[::-1].copy(), axis=ax.name))
+            if ax.values.dtype.kind in 'if' and ax.size > 1:
+                run('interp-mid', lambda: x.interp_axis([float(ax.values.min()), (float(ax.values.min()) + float(ax.values.max())) / 2.0], axis=ax.name))
+        lx = x.axes[-1]
+        if x.ndim > 1 and lx.size and not isinstance(lx, MultiAxis):
+            run('getlist-last', lambda: x.take([lx.values[-1], lx.values[0]], axis=lx.name))
+            run('sort-last', lambda: x.sort_axis(axis=lx.name))
+            run('reindex-last', lambda: x.reindex_axis(lx.values[::-1].copy(), axis=x.ndim - 1))
+        if not grouped:
+            # every dimension addressed by its name
+            run('sel-each-dim', lambda: [x.take({a_.name: a_.values[0]}) for a_ in x.axes if a_.size])
         if not grouped:
             run('flat', lambda: x.flatten())
             run('flatlab', lambda: repr(x.flatten().labels[0].tolist()))
@@ -257,6 +272,12 @@ def twin_program(case, ctx):
     from dimarray.core.axes import MultiAxis
     rng = random.Random(case["seed"])
     pool = [gen.build(sp) for sp in case["pool"]]
+    if case["seed"] % 3 == 0:
+        # default labels (0..n-1 on every axis) and equal sizes, built through the label-less constructor forms
+        n_ = 2 + case["seed"] % 2
+        pool.append(rng.choice([lambda: da.DimArray(np.arange(float(n_ * n_)).reshape(n_, n_)),
+                                lambda: da.DimArray(np.arange(float(n_ * n_)).reshape(n_, n_), dims=['p', 'q']),
+                                lambda: da.zeros(shape=(n_, n_)) + np.arange(float(n_ * n_)).reshape(n_, n_)])())
     hist = []
     ctr = [0]
     kinds_seen = set()
@@ -340,6 +361,41 @@ def twin_program(case, ctx):
                 x.set_axis({ax.values[0]: 7000 + step}, axis=k)
             elif op == 'rename' and ax is not None and not isinstance(ax, MultiAxis):
                 ax.name = fresh(ax.name[0] + 'r')
+            elif op == 'permute_labels' and plain and ax.size > 1:
+                # in-place relabelling with the same labels in another order (same dtype: the label buffer is written in place)
+                perm = ax.values.copy()
+                for _ in range(6):      # (an axis of repeated labels, e.g. after concatenate([x, x]), has no other order)
+                    if not np.array_equal(perm, ax.values):
+                        break
+                    perm = perm[np.array(rng.sample(range(ax.size), ax.size))]
+                how = rng.choice(['slice', 'set_axis', 'attr'])
+                if how == 'slice' or ',' in ax.name:
+                    ax[:] = perm
+                elif how == 'set_axis':
+                    x.set_axis(perm, axis=k)
+                else:
+                    setattr(x, ax.name, perm)
+            elif op == 'swapnames' and x.ndim > 1 and not grouped:
+                # on a deep copy: other live arrays may share these Axis objects (transpose, squeeze), and a rename seen through
+                # a shared Axis is the aliasing that section 7.8 leaves unasserted
+                r = x.copy()
+                j = rng.choice([i for i in range(x.ndim) if i != k])
+                r.take({a_.name: a_.values[0] for a_ in r.axes if a_.size})      # every dimension has been addressed by name
+                a0, a1 = r.axes[k], r.axes[j]
+                a0.name, a1.name = a1.name, a0.name
+            elif op == 'rename_reuse' and x.ndim > 1 and not grouped:
+                # one dimension gets a new name, then another one takes the name it had
+                r = x.copy()
+                j = rng.choice([i for i in range(x.ndim) if i != k])
+                r.take({a_.name: a_.values[0] for a_ in r.axes if a_.size})
+                old_ = r.axes[k].name
+                r.axes[k].name = fresh(old_[0] + 'q')
+                r.axes[j].name = old_
+            elif op == 'interp' and numeric and ax.size > 1:
+                lo_, hi_ = float(ax.values.min()), float(ax.values.max())
+                r = x.interp_axis([lo_, (lo_ + hi_) / 2.0, hi_], axis=k)
+            elif op == 'getlist_name' and plain:
+                r = x.take({ax.name: [ax.values[-1], ax.values[0]]})
             elif op == 'dataset' and not grouped:
                 ds = da.Dataset()
                 ds['v'] = x
